@@ -47,6 +47,19 @@ def run(ctx):
     # an evaluation writes only into its own copies: an in-memory / materialised environment hands the SAME dicts to the next triple
     c04.r3_copy_before_mutate(ctx, rule="C03.R14", only={"SequentialCB", "SequentialIGL", "RejectionCB"})
     r15_unwritable_rows(ctx)
+    # "every other triple still completes and is recorded ... in all execution configurations": a worker handles whole chunks -- the per-child limit counts the chunks it
+    # takes in, not the outputs (one per task) it hands on; otherwise a child ends normally in the middle of a chunk and the rest of the chunk is dropped without any error
+    from . import c08
+    ctx.rule("C03.R16", "C08.R5 for the experiment pipeline: in the worker line the per-child limit sits between the unpickler and the filter (it counts input chunks), and CobaMultiprocessor stores the limit it was given")
+    sub = type(ctx)(ctx.model, ctx.prop, ctx.tier, silent=True)
+    c08.ROLES = c08.Roles(sub.fn(c08.PMP, "Multiprocessor.filter"))
+    c08.r5_limit(sub, sub.fn(c08.PMP, "Multiprocessor.filter"))
+    for o in sub.obs:
+        o.rule = "C03.R16"
+        ctx.obs.append(o)
+    ctx.files |= sub.files
+    ctx.functions |= sub.functions
+    r17_no_bound_builtin_methods(ctx)
     ctx.rules["C03.R14"] = ("freshness analysis of the evaluators' read loops (incl. the reader SequentialIGL defines locally): an in-place mutation never targets an interaction "
                             "borrowed from the environment -- otherwise the next triple on a materialised environment sees the rewritten interactions")
 
@@ -73,6 +86,26 @@ def r15_unwritable_rows(ctx, rule="C03.R15"):
                     leaves = any(isinstance(x, (ast.Raise, ast.Return, ast.Break)) for b_ in h.body for x in ast.walk(b_))
                     ok = ok or (wide and logs and not leaves)
             ctx.ob(rule, RES_, "TransactionEncode.filter", c, "the record of one evaluation is built inside a handler that reports the failure and goes on", ok)
+
+
+def r17_no_bound_builtin_methods(ctx, rule="C03.R17"):
+    """copy.deepcopy treats a bound method of a built-in container (`self._Q.__getitem__`, `self._seen.add`) as atomic: the deep copy of a learner that keeps one still
+    reads / writes the ORIGINAL's container -- the copy learns into its own table and predicts from the user's object (pickle rebinds it, deepcopy does not)."""
+    ctx.rule(rule, "no built-in learner keeps a bound method of one of its own containers in an attribute: in coba/learners no `self.<a> = self.<b>.<method>` "
+                   "(an attribute of an attribute that is not called) with a container method name")
+    METHODS = {"__getitem__", "__setitem__", "__contains__", "__delitem__", "get", "setdefault", "pop", "append", "extend", "add", "update", "keys", "values", "items", "index", "count", "remove", "discard", "insert"}
+    n = 0
+    for rel, mod in sorted(ctx.model.modules.items()):
+        if not rel.startswith("coba/learners/"):
+            continue
+        for st in [x for x in ast.walk(mod.tree) if isinstance(x, ast.Assign) and any(is_self_attr(t) for t in x.targets)]:
+            n += 1
+            v = st.value
+            bound = isinstance(v, ast.Attribute) and is_self_attr(v.value) and v.attr in METHODS
+            if bound:
+                from ..model import qualname
+                ctx.ob(rule, rel, qualname(st), st, "a learner attribute is data or a python-level callable, never the bound method of one of its containers", False, detail={"stored": unparse(v)})
+    ctx.floor(rule, "attribute stores in coba/learners", n, 20)
 
 
 def evaluate_calls(fn):
@@ -655,6 +688,9 @@ def _class_cache(tree):
 
 
 CONTROLS = [
+    ("epsilon learner keeps its value table's __getitem__", "coba/learners/bandit.py", M.insert_after("BanditEpsilonLearner.__init__", M.text_has("self._Q"), "self._value_of = self._Q.__getitem__"), "C03.R17"),
+    ("the per-child limit counts outputs", "coba/pipes/multiprocessing.py", M.replace_expr("Multiprocessor.filter", "SourceSink(in_get, setter, unpickler, get_max, Safe(Foreach(self._filter)), pickler, out_put)",
+        "SourceSink(in_get, setter, unpickler, Safe(Foreach(self._filter)), get_max, pickler, out_put)"), "C03.R16"),
     ("rows that cannot be written end the whole experiment", "coba/results/core.py", M.replace_stmt("TransactionEncode.filter", lambda st: isinstance(st, ast.Try),
         "yield encoder(['I', item[1], {'_packed': {str(k): [r.get(k) for r in item[2]] for k in sorted(set().union(*[r.keys() for r in item[2]]), key=str)}}])"), "C03.R15"),
     ("IGL reader rewrites the environment's own interactions", SEQ, M.replace_stmt("SequentialIGL.evaluate", M.simple_has("new = interaction.copy()"), "new = interaction"), "C03.R14"),
